@@ -47,7 +47,7 @@ func writeManifest() {
 		PropertyID string `json:"property_id"`
 		Reason     string `json:"reason"`
 	}
-	var nas []na
+	nas := []na{}
 	var naIDs []string
 	for id := range notApplicable {
 		if properties[id] == nil {
